@@ -30,3 +30,47 @@ func SpecTokenInput(tokenType uint16, nonce, context, keyID string) string {
 //@ ensures fresh(res)
 //@ assigns none
 //@ end
+
+// struct { uint16 token_type; opaque issuer_name<1..2^16-1>; opaque redemption_context<0..32>;
+//          opaque origin_info<0..2^16-1>; } TokenChallenge   (RFC 9577 section 2.1)
+//
+//@ spec
+func specEncChallenge(tokenType uint16, issuer, nonce, origins string) string {
+	return U16(tokenType) + U16(uint16(len(issuer))) + issuer + B1(byte(len(nonce))) + nonce + U16(uint16(len(origins))) + origins
+}
+
+//@ func (c TokenChallenge) Marshal() (res []byte)
+//@ props C04 C16
+//@ safety C03 C04
+//@ requires len(c.IssuerName) <= 65535 && len(c.RedemptionNonce) <= 255 && len(JoinOf(c.OriginInfo, ",")) <= 65535
+//@ ensures string(res) == specEncChallenge(c.TokenType, c.IssuerName, string(c.RedemptionNonce), JoinOf(c.OriginInfo, ","))
+//@ ensures fresh(res)
+//@ assigns none
+//@ end
+
+// The decoder accepts exactly the byte strings that start with a well-formed challenge whose issuer name is
+// not empty; trailing bytes are ignored.
+//
+//@ func UnmarshalTokenChallenge(data []byte) (c TokenChallenge, err error)
+//@ props C03 C04 C16
+//@ let in = string(data)
+//@ let n1 = int(data[2])*256 + int(data[3])
+//@ let n2 = int(data[4+n1])
+//@ let n3 = int(data[5+n1+n2])*256 + int(data[6+n1+n2])
+//@ ensures (err == nil) == (len(data) >= 4 && n1 >= 1 && len(data) >= 5+n1 && len(data) >= 7+n1+n2 && len(data) >= 7+n1+n2+n3)
+//@ ensures err == nil ==> c.TokenType == uint16(data[0])*256+uint16(data[1]) && c.IssuerName == in[4:4+n1] && string(c.RedemptionNonce) == in[5+n1:5+n1+n2] && fresh(c.RedemptionNonce)
+//@ ensures err == nil ==> JoinOf(c.OriginInfo, ",") == in[7+n1+n2:7+n1+n2+n3] && len(c.OriginInfo) >= 1
+//@ assigns none
+//@ alloc 64*len(data) + 4096
+//@ end
+
+// Whenever the decoder accepts b, the canonical encoding of the decoded value is a prefix of b.
+//
+//@ lemma props C04
+func lemmaChallengeReencode(b []byte) {
+	in := string(b)
+	c, err := UnmarshalTokenChallenge(b)
+	Vassume(err == nil)
+	enc := c.Marshal()
+	Vassert(len(enc) <= len(b) && string(enc) == in[:len(enc)])
+}
